@@ -48,3 +48,21 @@ def prove(axioms, hyps, goal, z3_ms=None, cvc5_ms=None, want_model=True):
         STATS['cvc5_decided'] += 1
         return Result('refuted', model=None, solver=s, backend='cvc5', time=dt + dt2, reason='cvc5 sat (no model extracted)')
     return Result('undecided', backend='z3+cvc5', time=dt + dt2, reason=f'z3: {reason}; cvc5: {ans}')
+
+
+class Prover:
+    """one incremental solver per target (axioms asserted once, each obligation in its own push/pop frame); an `unknown`
+    is retried from scratch with a fresh solver (and then cvc5) by prove() - never mapped to a verdict"""
+    def __init__(self, axioms, z3_ms=None):
+        self.axioms = list(axioms); self.s = z3.Solver(); self.s.set('timeout', z3_ms or Z3_MS); self.s.add(*self.axioms)
+    def prove(self, hyps, goal):
+        s = self.s; s.push()
+        try:
+            s.add(*hyps); s.add(z3.Not(goal))
+            t0 = time.time(); r = s.check(); dt = time.time() - t0
+            STATS['z3_queries'] += 1; STATS['z3_time'] += dt
+            if r == z3.unsat: return Result('proved', backend='z3', time=dt)
+        finally:
+            s.pop()
+        # sat / unknown: redo in a fresh solver so that the model / second opinion come from the standard pipeline
+        return prove(self.axioms, hyps, goal)
